@@ -665,13 +665,15 @@ class _Zeros(io.RawIOBase):
         return self.pos
 
     def chunk(self, pos, k):
+        """bytes [pos, pos + k) of the stream (a pure function of the position)."""
         b = bytearray(k)
         mib = 1 << 20
-        first = (pos + mib - 1) // mib
-        m = first
-        while m * mib + 16 <= pos + k:
-            o = m * mib - pos
-            b[o:o + 16] = hashlib.md5(b'stamp%d' % m).digest()
+        m = pos // mib
+        while m * mib < pos + k:
+            lo, hi = max(m * mib, pos), min(m * mib + 16, pos + k)
+            if lo < hi:
+                st = hashlib.md5(b'stamp%d' % m).digest()
+                b[lo - pos:hi - pos] = st[lo - m * mib:hi - m * mib]
             m += 1
         return bytes(b)
 
